@@ -50,7 +50,7 @@ fn serr(e: &s2n_quic::stream::Error) -> serde_json::Value {
 
 /// writes `total` position-determined bytes in chunks, optionally resets, finishes and waits for the close
 #[allow(clippy::too_many_arguments)]
-async fn writer(sh: Shared, ep: &'static str, mut s: SendStream, total: u64, chunk: usize, finish: bool, reset_at: Option<u64>, reset_delay_us: u64, reset_after_finish_us: u64) {
+async fn writer(sh: Shared, ep: &'static str, mut s: SendStream, total: u64, chunk: usize, finish: bool, reset_at: Option<u64>, reset_delay_us: u64, reset_after_finish_us: u64, mode: String) {
     let id = s.id();
     let mut off = 0u64;
     let chunk = chunk.max(1);
@@ -74,7 +74,48 @@ async fn writer(sh: Shared, ep: &'static str, mut s: SendStream, total: u64, chu
         }
         let data = Bytes::from(fill(ep, id, off, n));
         emit(json!({"ev": "app_send_call", "ep": ep, "id": id, "off": off, "len": n}));
-        match with_deadline(&sh, "send", ep, id as i64, s.send(data)).await {
+        // every mode hands exactly the bytes [off, off+n) to the stream, following the API's own contract for
+        // partial writes (the loop re-offers what a call reported as not written)
+        let res: Option<Result<(), s2n_quic::stream::Error>> = match mode.as_str() {
+            "vec" => {
+                let half = n / 2;
+                let mut chunks = [data.slice(..half), data.slice(half..)];
+                with_deadline(&sh, "send", ep, id as i64, s.send_vectored(&mut chunks)).await
+            }
+            "tokio" | "tokio_vec" => {
+                use tokio::io::AsyncWriteExt;
+                let vectored = mode == "tokio_vec";
+                let fut = async {
+                    let mut done = 0usize;
+                    while done < n {
+                        let rest = &data[done..];
+                        let w = if vectored && rest.len() >= 2 {
+                            let h = rest.len() / 2;
+                            let bufs = [std::io::IoSlice::new(&rest[..h]), std::io::IoSlice::new(&rest[h..])];
+                            s.write_vectored(&bufs).await
+                        } else {
+                            s.write(rest).await
+                        };
+                        match w {
+                            Ok(0) => return Err(std::io::Error::new(std::io::ErrorKind::WriteZero, "zero")),
+                            Ok(k) => done += k,
+                            Err(e) => return Err(e),
+                        }
+                    }
+                    Ok(())
+                };
+                match with_deadline(&sh, "send", ep, id as i64, fut).await {
+                    Some(Ok(())) => Some(Ok(())),
+                    Some(Err(e)) => {
+                        emit(json!({"ev": "app_send_err", "ep": ep, "id": id, "off": off, "err": {"kind": "io", "dbg": format!("{e}")}}));
+                        return;
+                    }
+                    None => None,
+                }
+            }
+            _ => with_deadline(&sh, "send", ep, id as i64, s.send(data)).await,
+        };
+        match res {
             Some(Ok(())) => {
                 emit(json!({"ev": "app_send", "ep": ep, "id": id, "off": off, "len": n}));
                 off += n as u64;
@@ -115,7 +156,7 @@ async fn writer(sh: Shared, ep: &'static str, mut s: SendStream, total: u64, chu
     }
 }
 
-async fn reader(sh: Shared, ep: &'static str, mut r: ReceiveStream, delay_us: u64, stop_at: Option<u64>, start_delay_us: u64) {
+async fn reader(sh: Shared, ep: &'static str, mut r: ReceiveStream, delay_us: u64, stop_at: Option<u64>, start_delay_us: u64, mode: String) {
     let id = r.id();
     let mut off = 0u64;
     if start_delay_us > 0 {
@@ -129,11 +170,56 @@ async fn reader(sh: Shared, ep: &'static str, mut r: ReceiveStream, delay_us: u6
                 return;
             }
         }
-        match with_deadline(&sh, "recv", ep, id as i64, r.receive()).await {
+        // every mode yields: Some(Ok(Some(bytes))) data, Some(Ok(None)) clean end of stream, Some(Err) failure
+        let mut closed_with_data = false;
+        let got: Option<Result<Option<Vec<u8>>, s2n_quic::stream::Error>> = if let Some(k) = mode.strip_prefix("vec") {
+            let k: usize = k.parse().unwrap_or(2);
+            let mut slots = vec![Bytes::new(); k];
+            match with_deadline(&sh, "recv", ep, id as i64, r.receive_vectored(&mut slots)).await {
+                Some(Ok((count, is_open))) => {
+                    let data: Vec<u8> = slots[..count].iter().flat_map(|b| b.iter().copied()).collect();
+                    if data.is_empty() && !is_open { Some(Ok(None)) } else {
+                        // `is_open == false` tells the application that the stream ended with this data
+                        closed_with_data = !is_open;
+                        Some(Ok(Some(data)))
+                    }
+                }
+                Some(Err(e)) => Some(Err(e)),
+                None => None,
+            }
+        } else if mode.starts_with("tokio") {
+            use tokio::io::AsyncReadExt;
+            let fut = async {
+                if mode == "tokio_vec" {
+                    let mut buf = [0u8; 100];
+                    r.read(&mut buf).await.map(|n| buf[..n].to_vec())
+                } else {
+                    let size: usize = mode[5..].parse().unwrap_or(64);
+                    let mut buf = vec![0u8; size];
+                    r.read(&mut buf).await.map(|n| { buf.truncate(n); buf })
+                }
+            };
+            match with_deadline(&sh, "recv", ep, id as i64, fut).await {
+                Some(Ok(v)) if v.is_empty() => Some(Ok(None)),
+                Some(Ok(v)) => Some(Ok(Some(v))),
+                Some(Err(e)) => {
+                    emit(json!({"ev": "app_recv_err", "ep": ep, "id": id, "off": off, "err": {"kind": "io", "dbg": format!("{e}")}}));
+                    return;
+                }
+                None => None,
+            }
+        } else {
+            with_deadline(&sh, "recv", ep, id as i64, r.receive()).await.map(|x| x.map(|o| o.map(|b| b.to_vec())))
+        };
+        match got {
             Some(Ok(Some(chunk))) => {
                 let ok = matches(peer(ep), id, off, &chunk);
                 emit(json!({"ev": "app_recv", "ep": ep, "id": id, "off": off, "len": chunk.len(), "ok": ok}));
                 off += chunk.len() as u64;
+                if closed_with_data {
+                    emit(json!({"ev": "app_eos", "ep": ep, "id": id, "total": off}));
+                    return;
+                }
             }
             Some(Ok(None)) => {
                 emit(json!({"ev": "app_eos", "ep": ep, "id": id, "total": off}));
@@ -195,10 +281,10 @@ pub fn drive(sh: Shared, ep: &'static str, conn: Connection) {
                         match stream {
                             PeerStream::Bidirectional(s) => {
                                 let (r, w) = s.split();
-                                role(&sh, reader(sh.clone(), ep, r, sp.read_delay_us, sp.stop_at, sp.read_start_delay_us));
-                                role(&sh, writer(sh.clone(), ep, w, sp.reply, sp.reply_chunk, true, None, 0, 0));
+                                role(&sh, reader(sh.clone(), ep, r, sp.read_delay_us, sp.stop_at, sp.read_start_delay_us, sp.read_mode.clone()));
+                                role(&sh, writer(sh.clone(), ep, w, sp.reply, sp.reply_chunk, true, None, 0, 0, sp.write_mode.clone()));
                             }
-                            PeerStream::Receive(r) => role(&sh, reader(sh.clone(), ep, r, sp.read_delay_us, sp.stop_at, sp.read_start_delay_us)),
+                            PeerStream::Receive(r) => role(&sh, reader(sh.clone(), ep, r, sp.read_delay_us, sp.stop_at, sp.read_start_delay_us, sp.read_mode.clone())),
                         }
                     }
                     Ok(None) => {
@@ -230,8 +316,8 @@ pub fn drive(sh: Shared, ep: &'static str, conn: Connection) {
                     Some(Ok(s)) => {
                         emit(json!({"ev": "app_open", "ep": ep, "id": s.id(), "bidi": true}));
                         let (r, w) = s.split();
-                        role(&sh, writer(sh.clone(), ep, w, sp.send, sp.chunk, sp.finish, sp.reset_at, sp.reset_delay_us, sp.reset_after_finish_us));
-                        role(&sh, reader(sh.clone(), ep, r, sp.read_delay_us, None, 0));
+                        role(&sh, writer(sh.clone(), ep, w, sp.send, sp.chunk, sp.finish, sp.reset_at, sp.reset_delay_us, sp.reset_after_finish_us, sp.write_mode.clone()));
+                        role(&sh, reader(sh.clone(), ep, r, sp.read_delay_us, None, 0, sp.read_mode.clone()));
                     }
                     Some(Err(e)) => {
                         emit(json!({"ev": "app_open_err", "ep": ep, "err": crate::rec::error_json(&e)}));
@@ -244,7 +330,7 @@ pub fn drive(sh: Shared, ep: &'static str, conn: Connection) {
                 match with_deadline(&sh, "open", ep, -1, h2.open_send_stream()).await {
                     Some(Ok(w)) => {
                         emit(json!({"ev": "app_open", "ep": ep, "id": w.id(), "bidi": false}));
-                        role(&sh, writer(sh.clone(), ep, w, sp.send, sp.chunk, sp.finish, sp.reset_at, sp.reset_delay_us, sp.reset_after_finish_us));
+                        role(&sh, writer(sh.clone(), ep, w, sp.send, sp.chunk, sp.finish, sp.reset_at, sp.reset_delay_us, sp.reset_after_finish_us, sp.write_mode.clone()));
                     }
                     Some(Err(e)) => {
                         emit(json!({"ev": "app_open_err", "ep": ep, "err": crate::rec::error_json(&e)}));
